@@ -289,6 +289,14 @@ def same(got, exp, what, sig):
         return
     check(isinstance(got, da.DimArray), "not-a-dimarray", {"what": what, "on_disk": core.brief(got)}, sig)
     core.expect_equal_arrays(got, exp, what, sig=sig)
+    # "exactly what the same index returns on the loaded array": also the kind of the data and of the labels (where there are any)
+    kk = lambda dt: "s" if dt.kind in "OUS" else ("i" if dt.kind in "iu" else dt.kind)
+    if got.values.size:
+        check(kk(got.values.dtype) == kk(exp.values.dtype), "value-kind", {"what": what, "on_disk": str(got.values.dtype), "in_memory": str(exp.values.dtype)}, sig)
+    for i, d_ in enumerate(exp.dims):
+        if exp.axes[i].size:
+            check(kk(got.axes[i].values.dtype) == kk(exp.axes[i].values.dtype), "label-kind", {"what": what, "dim": d_, "on_disk": str(got.axes[i].values.dtype),
+                                                                                                 "in_memory": str(exp.axes[i].values.dtype)}, sig)
 
 
 def same_dataset(got, exp, what, sig, order=True):
@@ -357,13 +365,14 @@ def run_read(case, tmp):
         nonfull_p = [i for i, d in enumerate(pidx) if d["k"] != "full"]
         ldict = {dims[i]: lt[i] for i in nonfull_l}
         pdict = {dims[i]: pt[i] for i in nonfull_p}
+        ldict_arg, pdict_arg = dict(ldict), dict(pdict)      # ONE mapping object per mode handed to every dict spelling (an argument is not consumed)
         sig = {"mode": "read-label"}
         base = "var %s dims=%s labels=%s " % (name, dims, labels)
         # ---- label spellings: every on-disk spelling against the in-memory take
         mem = lambda: A.take(lt)
         spellings = [("h[name][t]", lambda: v[lt]), ("h[name].loc[t]", lambda: v.loc[lt]), ("h[name].sel(**)", lambda: v.sel(**ldict)), ("h[name].read(t)", lambda: v.read(lt)),
-                     ("h[name].read(indices=dict)", lambda: v.read(indices=dict(ldict))), ("read_nc(f, name, indices=dict)", lambda: da.read_nc(path, name, indices=dict(ldict))),
-                     ("h.read(name, indices=dict)", lambda: h.read(name, indices=dict(ldict))),
+                     ("h[name].read(indices=dict)", lambda: v.read(indices=ldict_arg)), ("read_nc(f, name, indices=dict)", lambda: da.read_nc(path, name, indices=ldict_arg)),
+                     ("h.read(name, indices=dict)", lambda: h.read(name, indices=ldict_arg)), ("h[name][dict]", lambda: v[ldict_arg]),
                      # index tuples (not mappings) refer to the VARIABLE's own dimensions, whatever the file's dimension order is
                      ("read_nc(f, name, indices=tuple)", lambda: da.read_nc(path, name, indices=lt)), ("h.read(name, indices=tuple)", lambda: h.read(name, indices=lt))]
         if len(nonfull_l) == 1:
@@ -378,6 +387,8 @@ def run_read(case, tmp):
             cl.add("read:variable-not-on-the-file's-first-dimension")
         for sname, f in spellings:
             r = differential(f, mem, base + "%s lidx=%s" % (sname, core.jsonable(lidx)), sig)
+            check(list(ldict_arg.keys()) == list(ldict.keys()) and all(ldict_arg[k_] is ldict[k_] for k_ in ldict), "index-mapping-modified",
+                  {"what": base + sname, "now": core.jsonable(list(ldict_arg.keys())), "was": core.jsonable(list(ldict.keys()))}, sig)
             if r.startswith("raised:IndexError"):
                 cl.add("read:absent->IndexError")
         if case["keepdims"]:
@@ -388,10 +399,11 @@ def run_read(case, tmp):
         memp = lambda: A.take(pt, indexing="position")
         for sname, f in [("h[name].ix[t]", lambda: v.ix[pt]), ("h[name].iloc[t]", lambda: v.iloc[pt]), ("h[name].isel(**)", lambda: v.isel(**pdict)),
                          ("h[name].read(t, indexing=position)", lambda: v.read(pt, indexing="position")),
-                         ("read_nc(f, name, indices=, indexing=position)", lambda: da.read_nc(path, name, indices=dict(pdict), indexing="position")),
+                         ("read_nc(f, name, indices=, indexing=position)", lambda: da.read_nc(path, name, indices=pdict_arg, indexing="position")),
                          ("read_nc(f, name, indices=tuple, indexing=position)", lambda: da.read_nc(path, name, indices=pt, indexing="position")),
                          ("h.read(name, indices=tuple, indexing=position)", lambda: h.read(name, indices=pt, indexing="position"))]:
             differential(f, memp, base + "%s pidx=%s" % (sname, core.jsonable(pidx)), sig)
+            check(list(pdict_arg.keys()) == list(pdict.keys()), "index-mapping-modified", {"what": base + sname, "now": core.jsonable(list(pdict_arg.keys()))}, sig)
         cl.add("read:position")
         # ---- tolerance
         t = case["tol"]
